@@ -181,21 +181,21 @@ Section ZXLemmas.
 
   (* F(box) for every box the functor accepts: well-typed, the arity of the box, and --
      where the box is free of F13 -- the evaluation of the box up to the unit gate_lam *)
-  Lemma c2z_box_ok : forall g d, c2z_box g = ZOk d ->
+  Lemma c2z_box_ok : forall (df : bool) g d, c2z_box_at df g = ZOk d ->
     zwf d = true /\ gd_dom d = qdom g /\ zcod0 d = qcod g
-    /\ (f13_free g ->
+    /\ (f13_free_at df g ->
         meq (qdom g) (qcod g) (spec d) (mscale (gate_lam g) (box_eval (qgate_box g)))).
   Proof.
-    intros g d H.
+    intros df g d H.
     assert (K : forall e m n lam M, ewt e = true -> edom e = m -> ecod e = n ->
-              (f13_free g -> meq m n (esem e) (mscale lam M)) ->
+              (f13_free_at df g -> meq m n (esem e) (mscale lam M)) ->
               zwf (edenote e) = true /\ gd_dom (edenote e) = m /\ zcod0 (edenote e) = n
-              /\ (f13_free g -> meq m n (spec (edenote e)) (mscale lam M))).
+              /\ (f13_free_at df g -> meq m n (spec (edenote e)) (mscale lam M))).
     { intros e m n lam M W D C E. destruct (esem_ok SR PA e W) as (W' & D' & C' & E').
       split; [exact W'|]. split; [congruence|]. split; [congruence|].
       intro F. subst m n. eapply meq_trans; [exact E' | exact (E F)]. }
     destruct g as [ | | |[]| | | |p|p|p|p|p|bs|bs|z|k| |dd cc];
-      cbn [c2z_box gate2zx] in H; try discriminate H; injection H as <-;
+      cbn [c2z_box_at gate2zx_at] in H; try discriminate H; injection H as <-;
       cbn [qdom qcod gate_lam].
     - (* H *) apply (K (EBox ZHad)); try reflexivity. intros _. apply h_exp_sem.
     - (* X *) apply (K (spider KX 1 1 phalf)); try reflexivity. intros _. apply x_exp_sem.
@@ -218,24 +218,33 @@ Section ZXLemmas.
       intros i o _ _. unfold mscale. cbn [zbox_sem qgate_box box_eval]. ring.
     - (* Rx *) apply (K (spider KX 1 1 p)); try reflexivity. intros _. apply rx_exp_sem.
     - (* Rz *) apply (K (spider KZ 1 1 p)); try reflexivity. intros _. apply rz_exp_sem.
-    - (* CU1 *) apply (K (cu1_exp p)); try reflexivity. cbn [f13_free]. intro F.
-      pose proof (cu1_exp_sem SR PA p) as X. cbn [qgate_box].
-      intros i o Hi' Ho. rewrite (X i o Hi' Ho). unfold mscale. f_equal.
-      clear X. cbn in Hi', Ho. dbits; unfold box_eval, gate2_eval, mat_of_flat; cbn;
-        try reflexivity; rewrite F; ring.
-    - (* CRz *) apply (K (crz_exp p)); try reflexivity. cbn [f13_free]. intro F.
-      pose proof (crz_exp_sem SR PA p) as X. cbn [qgate_box].
-      replace (pE p * pE p) with (pE p) in X by (rewrite F; ring). exact X.
-    - (* CRx *) apply (K (crx_exp p)); try reflexivity. cbn [f13_free]. intro F.
-      pose proof (crx_exp_sem_trivial SR PA p F) as X. cbn [qgate_box]. rewrite F. exact X.
+    - (* CU1 *) destruct df.
+      + apply (K (cu1_exp p)); try reflexivity. cbn [f13_free_at]. intro F.
+        pose proof (cu1_exp_sem SR PA p) as X. cbn [qgate_box].
+        intros i o Hi' Ho. rewrite (X i o Hi' Ho). unfold mscale. f_equal.
+        clear X. cbn in Hi', Ho. dbits; unfold box_eval, gate2_eval, mat_of_flat; cbn;
+          try reflexivity; rewrite F; ring.
+      + apply (K (cu1_exp (phalve p))); try reflexivity. cbn [f13_free_at]. intro F.
+        pose proof (cu1_exp_sem SR PA (phalve p)) as X. cbn [qgate_box]. rewrite F in X. exact X.
+    - (* CRz *) destruct df.
+      + apply (K (crz_exp p)); try reflexivity. cbn [f13_free_at]. intro F.
+        pose proof (crz_exp_sem SR PA p) as X. cbn [qgate_box].
+        replace (pE p * pE p) with (pE p) in X by (rewrite F; ring). exact X.
+      + apply (K (crz_exp (phalve p))); try reflexivity. cbn [f13_free_at]. intro F.
+        pose proof (crz_exp_sem SR PA (phalve p)) as X. cbn [qgate_box]. rewrite F in X. exact X.
+    - (* CRx *) destruct df.
+      + apply (K (crx_exp p)); try reflexivity. cbn [f13_free_at]. intro F.
+        pose proof (crx_exp_sem_trivial SR PA p F) as X. cbn [qgate_box]. rewrite F. exact X.
+      + apply (K (crx_fixed_exp (phalve p))); try reflexivity. cbn [f13_free_at]. intro F.
+        pose proof (crx_fixed_exp_sem SR PA (phalve p)) as X. cbn [qgate_box]. rewrite F in X. exact X.
     - (* Ket *) destruct (ket_exp_ok bs) as (W & D & C & E). apply (K (ketbra_exp false bs)); auto.
     - (* Bra *) destruct (bra_exp_ok bs) as (W & D & C & E). apply (K (ketbra_exp true bs)); auto.
     - (* scalar *) apply (K (escalar (SData z))); try reflexivity. intros _. apply scalar_exp_sem.
     - (* sqrt *) apply (K (escalar (SPow2h (2 * k)%Z))); try reflexivity. intros _. apply sqrt_exp_sem.
   Qed.
 
-  Lemma c2z_box_supported : forall g d, c2z_box g = ZOk d -> supported g = true.
-  Proof. intros g d H. destruct g as [ | | |[]| | | |p|p|p|p|p|bs|bs|z|k| |dd cc]; cbn in H |- *; congruence. Qed.
+  Lemma c2z_box_supported : forall (df : bool) g d, c2z_box_at df g = ZOk d -> supported g = true.
+  Proof. intros df g d H. destruct g as [ | | |[]| | | |p|p|p|p|p|bs|bs|z|k| |dd cc]; cbn in H |- *; congruence. Qed.
 
   Lemma qgate_box_dom : forall g, supported g = true -> box_dom (qgate_box g) = qdom g.
   Proof. destruct g; cbn; intros; try reflexivity; discriminate. Qed.
@@ -272,24 +281,24 @@ Section ZXLemmas.
     rewrite mscale_mmul_r. unfold mscale. ring.
   Qed.
 
-  Lemma c2z_loop_ok : forall ls w w2 (acc d : zxd PA),
+  Lemma c2z_loop_ok : forall (df : bool) ls w w2 (acc d : zxd PA),
     qrun w ls = Some w2 -> zwf acc = true -> zcod0 acc = w ->
-    c2z_loop w acc ls = ZOk d ->
+    c2z_loop df w acc ls = ZOk d ->
     zwf d = true /\ gd_dom d = gd_dom acc /\ zcod0 d = w2
     /\ (forall l, In l ls -> supported (snd l) = true)
-    /\ ((forall l, In l ls -> f13_free (snd l)) ->
+    /\ ((forall l, In l ls -> f13_free_at df (snd l)) ->
         meq (gd_dom acc) w2 (spec d)
             (mscale (circ_lam ls) (mmul w (spec acc) (lprod w (map qb ls))))).
   Proof.
-    induction ls as [|[off g] ls IH]; intros w w2 acc d Hrun Wacc Cacc H.
+    intro df. induction ls as [|[off g] ls IH]; intros w w2 acc d Hrun Wacc Cacc H.
     - cbn in Hrun, H. injection Hrun as <-. injection H as <-.
       split; [exact Wacc|]. split; [reflexivity|]. split; [exact Cacc|].
       split; [intros l []|]. intros _. cbn [map lprod circ_lam fold_right].
       intros i o Hi' Ho. rewrite mscale_one. symmetry. exact (mmul_id_r SR (gd_dom acc) w (spec acc) i o Hi' Ho).
     - apply grun_cons in Hrun as [Hfit Hrun]. cbn [fst snd] in Hfit. unfold gstep in Hrun. cbn [snd] in Hrun.
-      cbn [c2z_loop] in H. destruct (c2z_box g) as [fg|] eqn:Eb; [|discriminate H].
-      destruct (c2z_box_ok g fg Eb) as (Wf & Df & Cf & Sf).
-      pose proof (c2z_box_supported g fg Eb) as Sup.
+      cbn [c2z_loop] in H. destruct (c2z_box_at df g) as [fg|] eqn:Eb; [|discriminate H].
+      destruct (c2z_box_ok df g fg Eb) as (Wf & Df & Cf & Sf).
+      pose proof (c2z_box_supported df g fg Eb) as Sup.
       set (r := (w - (off + qdom g))%nat) in *.
       destruct (gd_id_wf _ zdom zcodb off) as [Wl Cl]. destruct (gd_id_wf _ zdom zcodb r) as [Wr Cr].
       destruct (gd_tensor_wf _ zdom zcodb _ _ Wl Wf) as (W1 & D1 & C1).
@@ -307,10 +316,10 @@ Section ZXLemmas.
       destruct (IH _ _ _ _ Hrun W3 (eq_trans C3 CW) H) as (Wd & Dd & Cd & Sd & Ed).
       split; [exact Wd|]. split; [congruence|]. split; [exact Cd|].
       split; [intros l [<-|Hl]; [exact Sup | apply Sd, Hl]|].
-      intro F. cbn [map circ_lam fold_right lprod]. unfold qb at 1 2. cbn [fst snd].
+      intro F. cbn [map circ_lam fold_right lprod]. change (qb (off, g)) with (off, qgate_box g). cbn [fst snd].
       assert (Hstep : step_w w (off, qgate_box g) = (w - qdom g + qcod g)%nat).
       { unfold step_w. cbn [snd]. rewrite qgate_box_dom, qgate_box_cod by exact Sup. reflexivity. }
-      rewrite Hstep.
+      rewrite !Hstep.
       rewrite D3 in Ed.
       apply (step_algebra (gd_dom acc) w (w - qdom g + qcod g) w2 (gate_lam g) (circ_lam ls)
                (spec acc) (layer_mat (off, qgate_box g)) _ (spec (zthen acc WW)) (spec d)).
@@ -331,14 +340,10 @@ Section ZXLemmas.
         eapply meq_trans.
         { apply kron_compat; [|apply meq_refl].
           eapply meq_trans; [exact E1|].
-          apply kron_compat; [apply meq_refl | apply Sf, F; left; reflexivity]. }
+          apply kron_compat; [apply meq_refl | apply Sf, (F (off, g)); left; reflexivity]. }
         intros i o _ _.
-        change (kron (off + qdom g) (off + qcod g)
-                  (kron off off (gd_sem_spec zdom zcodb zsem (GD off []))
-                     (mscale (gate_lam g) (box_eval (qgate_box g))))
-                  (gd_sem_spec zdom zcodb zsem (GD r [])) i o)
-          with (whisker off (qdom g) (qcod g) (mscale (gate_lam g) (box_eval (qgate_box g))) i o).
-        rewrite mscale_whisker. unfold layer_mat. cbn [fst snd].
+        refine (eq_trans (mscale_whisker SR off (qdom g) (qcod g) (gate_lam g) (box_eval (qgate_box g)) i o) _).
+        unfold layer_mat. cbn [fst snd].
         rewrite qgate_box_dom, qgate_box_cod by exact Sup. reflexivity.
       + apply Ed. intros l Hl. apply F. right. exact Hl.
   Qed.
@@ -355,18 +360,18 @@ Section ZXLemmas.
   Qed.
 
   (* ================================================================ circuit2zx *)
-  Lemma circuit2zx_ok : forall (c : qcirc PA) d, circuit2zx c = ZOk d ->
+  Lemma circuit2zx_ok : forall (df : bool) (c : qcirc PA) d, circuit2zx_at df c = ZOk d ->
     qwf c = true /\ zwf d = true /\ gd_dom d = gd_dom c /\ zcod0 d = qcod0 c
     /\ wf_circuit (qcirc_circuit c) = true /\ cod_or0 (qcirc_circuit c) = qcod0 c
-    /\ ((forall l, In l (gd_layers c) -> f13_free (snd l)) ->
+    /\ ((forall l, In l (gd_layers c) -> f13_free_at df (snd l)) ->
         meq (gd_dom c) (qcod0 c) (zx_sem d)
             (mscale (circ_lam (gd_layers c)) (eval (qcirc_circuit c)))).
   Proof.
-    intros c d H. unfold circuit2zx in H. destruct (qwf c) eqn:Wc; [|discriminate H].
+    intros df c d H. unfold circuit2zx_at in H. destruct (qwf c) eqn:Wc; [|discriminate H].
     pose proof (wf_run _ (@qdom SR PA) (@qcod SR PA) c Wc) as Rc.
     fold (qcod0 c) in Rc.
     destruct (gd_id_wf _ zdom zcodb (gd_dom c)) as [Wi Ci].
-    destruct (c2z_loop_ok _ _ _ _ _ Rc Wi Ci H) as (Wd & Dd & Cd & Sd & Ed).
+    destruct (c2z_loop_ok df _ _ _ _ _ Rc Wi Ci H) as (Wd & Dd & Cd & Sd & Ed).
     assert (Rw : run_width (gd_dom c) (map qb (gd_layers c)) = Some (qcod0 c))
       by (rewrite run_width_map by exact Sd; exact Rc).
     assert (Wq : wf_circuit (qcirc_circuit c) = true).
